@@ -197,6 +197,15 @@ class Run:
                 status = "hang" if hung else "crash"
                 confirmed = self.confirm_crash(shards[i][got], case_timeout)
                 if not confirmed:
+                    # the case runs fine alone: an overloaded machine (watchdog) or a transient failure - run the
+                    # rest of the shard again from this case, a few times at most
+                    transient = getattr(self, "_transient", {})
+                    transient[i] = transient.get(i, 0) + 1
+                    self._transient = transient
+                    if transient[i] <= 3:
+                        log("drive: shard %d: %s at case %d does not reproduce alone; continuing from it (attempt %d)" % (i, status, got, transient[i]))
+                        done = got
+                        continue
                     raise Infra("driver died (%s, rc=%s) on a case that does not reproduce alone:\n%s\n%s"
                                 % (status, rc, shards[i][got][:500], err[-1500:]))
                 rec = {"case": culprit, "panic": "%s: %s" % (status, crash_message(confirmed)),
@@ -410,7 +419,7 @@ def parse_tlc(out):
                      "Error: In evaluation", "Error: Attempted to", "Error: The first argument", "Error: The second argument",
                      "was not in the domain", "Error: There was a conflict", "Error: Deadlock", "Fatal error",
                      "Error: Action property", "Error: Temporal properties", "Error: Cannot find", "Error: An exception",
-                     "Error: The exception", "Error: Unknown", "Could not", "StackOverflowError"]
+                     "Error: The exception", "Error: Unknown", "Could not", "StackOverflowError", "Error: Assumption"]
     for l in out.split("\n"):
         if any(k in l for k in fatal_markers):
             res["fatal"].append(l)
